@@ -514,6 +514,22 @@ theorem C04_get_returns_a_private_copy (s : HSt) (h : HInv s) (realm k : Bytes) 
   · rw [← alloc_ref s.mem (s.mem.read r0), read_alloc_new]
   · exact deref_congr (fun e he => read_alloc_lt _ _ _ (h.owned_lt e he))
 
+/-- **An iteration hands out private copies**: every value slice the consumer receives is a buffer the caller holds
+afterwards, none of them is referenced by the map (so retaining or overwriting them is harmless), and the stored data is
+unchanged by the iteration. -/
+theorem C04_iterate_hands_out_copies (s : HSt) (h : HInv s) (realm p : Bytes) (d : Dir) (l : List (Bytes × Ref))
+    (hl : (hstep s (.iter realm p d)).2 = .refs l) :
+    (∀ x ∈ l, x.2 ∈ (hstep s (.iter realm p d)).1.known ∧ ∀ e ∈ (hstep s (.iter realm p d)).1.m, e.2 ≠ x.2) ∧
+    storeView (hstep s (.iter realm p d)).1 = storeView s := by
+  have hi := hinv_step s h (.iter realm p d)
+  refine ⟨fun x hx => ⟨iter_refs_known s realm p d l hl x hx, fun e he heq => ?_⟩, ?_⟩
+  · exact hi.owned_priv e he (heq ▸ iter_refs_known s realm p d l hl x hx)
+  · have hs : ∀ e ∈ s.m.filter (fun e => hasPfx (realm ++ p) e.1), e.2 < s.mem.next :=
+      fun e he => h.owned_lt e (List.mem_filter.mp he).1
+    obtain ⟨_, h2, _, _⟩ := copyAll_ok _ s.mem hs
+    simp only [hstep, storeView]
+    exact deref_congr (fun e he => h2 e.2 (h.owned_lt e he))
+
 /-- **`Commit` stores copies made at commit time**: the stored data afterwards is the value model's `dbCommit`
 applied to the *contents* the batch's buffers have when `Commit` is called — and by `C04_private_inv_reachable` /
 `C04_caller_writes_do_not_reach_the_store` nothing the caller does to those buffers after `Commit` returned
